@@ -187,13 +187,18 @@ def finding_key(plan_text, err=None):
         return "null-aware-anti-join-without-equijoin-keys"
     if literal_aggregate(plan_text or ""):
         return "count-distinct-of-projected-literal-answered-from-statistics"
+    if err and "ivide by zero" in err and re.search(r"IS (NOT )?DISTINCT FROM Boolean\(true\) (AND|OR) ", plan_text or ""):
+        return "simplify-boolean-case-to-and-or-evaluates-guarded-expression"
     if offset_limit_key(plan_text):
         return offset_limit_key(plan_text)
     if extracted_below_outer_join(plan_text or ""):
         return "push_down_leaf_projections-below-null-supplying-join-side"
+    if err and "No field named __datafusion_extracted" in err and "Optimizer rule" in err and "push_down_leaf_projections' failed" not in err:
+        return "leaf-expression-extraction-leaves-dangling-column"
     if err and "unions_to_filter' failed" in err and "No field named" in err:
         return "unions_to_filter-filter-above-aliasing-projection"
-    if err and "push_down_leaf_projections' failed" in err and "duplicate qualified field name" in err:
+    if err and "push_down_leaf_projections' failed" in err and "Schema error" in err and \
+            ("duplicate qualified field name" in err or "duplicate unqualified field name" in err or "No field named __datafusion_extracted" in err):
         return "push_down_leaf_projections-duplicate-qualified-field-name"
     if err and "Physical input schema should be the same as the one converted from logical input schema" in err \
             and "(physical) true vs (logical) false" in err:
@@ -254,8 +259,9 @@ class Judge:
             self.st[f"{kind}:{sb}->{sa}"] += 1
             if sb not in ("ok", "diff"):
                 continue
-            if sa == "evalerr" and "common_sub_expression_eliminate" in what:
-                # CSE only re-arranges expressions inside one node: it evaluates them on the same rows.  The reference is lazy
+            if sa == "evalerr" and any(x in what for x in ("rule common_sub_expression_eliminate", "alone:common_sub_expression_eliminate",
+                                                          "rule simplify_expressions", "alone:simplify_expressions")):
+                # CSE and the simplifier only re-arrange expressions inside one node: they evaluate them on the same rows.  The reference is lazy
                 # exactly in CASE / COALESCE, so an evaluation error that appears with this rule means a guarded
                 # subexpression is now evaluated unconditionally (short-circuit context not respected).
                 self.raise_(case, res, kind, what, d, b, a, f"{what}: the plan AFTER raises an evaluation error ({ma[:200]}) on rows for which the "
